@@ -26,13 +26,16 @@ RULE = (
     "EVERY file-system interception point (open/write incl. torn prefixes/close/rename/getsize/remove) of EVERY "
     "autosave is a crash world. A case is non-trivial iff the crash lands inside an autosave that follows a "
     "completed one; cases are distinct by (save-ordinal bucket, operation:phase:file-role, torn class, "
-    "crash-vs-error-return, leftover files present, incarnation depth)."
+    "crash-vs-error-return, leftover files present, incarnation depth). On top of the crash worlds, 3 (thorough: 6) resumed "
+    "incarnations per scenario are killed *with unwinding* at a tape-chosen file-system point: an error return (ENOSPC / EIO / "
+    "EACCES instead of the operation) or a KeyboardInterrupt before or after it; the directory the unwound process leaves is "
+    "judged the same way and resumed."
 )
 COMPONENTS = {
     "real": ["pulser sampling", "PulserData", "MPSBackend.run/_run/resume", "MPSBackendImpl.save_simulation", "pickle", "TDVP/DMRG/quantum-jump numerics", "kernel file system (tmpfs)"],
     "stubbed": ["wall clock (SimClock)", "uuid1/uuid4 (counter)", "RNG seeding", "minimize_bandwidth (scheduler-chosen permutation)", "process death (directory snapshot + fresh incarnation)"],
 }
-PROBES = ["crash_between_renames", "torn_new", "crash_before_bak_removed", "error_return_injected", "second_crash_in_resumed_incarnation", "stale_leftover_present_at_save", "noisy_save_with_active_root_search", "final_cleanup_points"]
+PROBES = ["crash_between_renames", "torn_new", "crash_before_bak_removed", "error_return_injected", "interrupt_injected", "second_crash_in_resumed_incarnation", "stale_leftover_present_at_save", "noisy_save_with_active_root_search", "final_cleanup_points"]
 ASSUMPTIONS = [
     "process crash model: directory contents at the instant of death survive; no power-loss (un-fsynced data) model, the property does not ask for it",
     "POSIX rename semantics (the kernel's)",
@@ -59,6 +62,9 @@ def run_one(tape: Tape, tier: str, opts: dict) -> dict:
     seeds = (tape.seed32("seed_py"), tape.seed32("seed_np"), tape.seed32("seed_torch"))
     world = World("c27")
     world.uuid_seed = tape.int(1, 1000, "uuid_seed")
+    # user-space write buffer of the autosave file (CPython: st_blksize of the file system, 4 KiB ... 1 MiB): whatever is
+    # still in it when the process dies never reaches the disk
+    world.buffer_size = tape.choice([8192, 8192, 512, 4096, 65536, 1 << 20], "write_buffer")
     sample: dict[str, Any] = {}
     out: dict[str, Any] = {"scenario": {"register": case["scn"]["atoms"], "ops": case["scn"]["ops"], "cfg": {k: v for k, v in cfg.items() if k != "observables"}, "solver": case["solver"], "perm": case["perm_kind"]}}
     try:
@@ -177,7 +183,7 @@ def _judge_worlds(H: C.History, tape: Tape, tier: str, world: World, case: dict,
         if rs.error is not None:
             H.viol("C27.resume-raises", f"{site}|{rs.error_site}", f"resume from the crash world at fs point {w['n']} ({site}) raised {rs.error!r}", world=C.describe_world(w, base))
             continue
-        d = R.compare(ref.results, rs.results)
+        d = C.compare_resumed(case, ref, rs, rng)
         if d:
             H.viol("C27.resume-differs", _dclass(d), f"resume from the crash world at fs point {w['n']} ({site}) differs from the uninterrupted run: {d[:3]}", world=C.describe_world(w, base))
             continue
@@ -185,15 +191,26 @@ def _judge_worlds(H: C.History, tape: Tape, tier: str, world: World, case: dict,
             H.probe("second_crash_in_resumed_incarnation")
             _judge_worlds(H, tape, tier, world, case, ref, _as_forward(rs, fw), base, cache, depth + 1, sample)
     # error returns, injected into a resumed incarnation so that they land inside an autosave
-    nerr = (2 if tier == "quick" else 5) if depth == 0 else 0
+    nerr = (3 if tier == "quick" else 6) if depth == 0 else 0
     loadables = [w for w in in_scope if M.loadable(w["files"].get(base), cache)[0] and w["pcall"] < total]
     for j in range(nerr):
         if not loadables:
             break
         w = loadables[tape.int(0, len(loadables) - 1, f"err_world{j}")]
         k = tape.int(1, 14, f"err_point{j}")
-        code = tape.choice([errno.ENOSPC, errno.EIO, errno.EACCES], f"err_code{j}")
+        code = tape.choice([errno.ENOSPC, errno.EIO, errno.EACCES, "interrupt"], f"err_code{j}")
         rng = fw.rng_by_sha.get(M.sha(w["files"][base]))
+        if code == "interrupt":
+            # KeyboardInterrupt at that file-system point (before or after the operation): the process unwinds, then dies
+            rs = C.resume_run(world, case, w["files"], base, rng, True, (lambda n: case["cfg"]["autosave_dt"] + 1.0), faults={k: ("interrupt",)})
+            fired = getattr(rs, "fired", {}).get("interrupt", 0)
+            H.evals += 1
+            if not fired:
+                continue
+            H.fault("interrupt")
+            H.probe("interrupt_injected")
+            _after_kill(H, tape, world, case, ref, rs, base, cache, rng, "KeyboardInterrupt", k, "interrupt:", M.sha(w["files"][base]))
+            continue
         rs = C.resume_run(world, case, w["files"], base, rng, True, (lambda n: case["cfg"]["autosave_dt"] + 1.0), faults={k: ("error", code)})
         fired = getattr(rs, "fired", {}).get("error", 0)
         H.evals += 1
@@ -209,21 +226,47 @@ def _judge_worlds(H: C.History, tape: Tape, tier: str, world: World, case: dict,
         site = "error-return:" + (C.site_of({**at, "torn": None}, base) if at else "?")
         if rs.error is None:
             # the SUT survived the error; its results must still be right
-            d = R.compare(ref.results, rs.results)
+            d = C.compare_resumed(case, ref, rs, rng)
             if d:
                 H.viol("C27.resume-differs", site, f"run continued after an injected {errno.errorcode[code]} at fs point {k} but its results differ: {d[:3]}")
             continue
         if not ok:
             H.viol("C27.missing" if data is None else "C27.unloadable", site, f"an injected {errno.errorcode[code]} at fs point {k} of a resumed incarnation killed the run ({rs.error_site}) and left " + ("no file" if data is None else f"an unloadable file ({why})") + f" under {base}: { {n: (len(b) if b is not None else None) for n, b in files.items()} }")
             continue
-        rs2 = C.resume_run(world, case, files, base, rs.rng_by_sha.get(M.sha(data)) or rng, False, (lambda n: 0.003))
+        rng2 = rs.rng_by_sha.get(M.sha(data)) or (rng if M.sha(data) == M.sha(w["files"][base]) else fw.rng_by_sha.get(M.sha(data)))
+        rs2 = C.resume_run(world, case, files, base, rng2, False, (lambda n: 0.003))
         H.evals += 1
         if rs2.error is not None:
             H.viol("C27.resume-raises", f"{site}|{rs2.error_site}", f"after an injected {errno.errorcode[code]} killed the run, resume raised {rs2.error!r}")
         else:
-            d = R.compare(ref.results, rs2.results)
+            d = C.compare_resumed(case, ref, rs2, rng2)
             if d:
                 H.viol("C27.resume-differs", site, f"after an injected {errno.errorcode[code]} killed the run, the resumed results differ: {d[:3]}")
+
+
+def _after_kill(H: C.History, tape: Tape, world: World, case: dict, ref: M.Outcome, rs: M.Outcome, base: str, cache: dict, rng: Any, what: str, k: int, prefix: str, start_sha: str) -> None:
+    """The run was killed by an exception the scheduler injected and has unwound: the directory it leaves behind must
+    hold a loadable snapshot under the advertised name, and resuming from it must give the reference results."""
+    files = rs.final_files  # type: ignore[attr-defined]
+    data = files.get(base)
+    ok, why = M.loadable(data, cache)
+    at = rs.fired_at[0] if getattr(rs, "fired_at", None) else None  # type: ignore[attr-defined]
+    site = prefix + (C.site_of({**at, "torn": None}, base) if at else "?")
+    H.cases.append((f"{prefix}{(at or {}).get('op')}:{(at or {}).get('phase')}|ok={ok}", True))
+    if rs.error is None:
+        return  # the SUT swallowed it and finished: nothing to resume
+    if not ok:
+        H.viol("C27.missing" if data is None else "C27.unloadable", site, f"an injected {what} at fs point {k} of a resumed incarnation killed the run and left " + ("no file" if data is None else f"an unloadable file ({why})") + f" under {base}: { {n: (len(b) if b is not None else None) for n, b in files.items()} }")
+        return
+    rng2 = rs.rng_by_sha.get(M.sha(data)) or (rng if M.sha(data) == start_sha else None)
+    rs2 = C.resume_run(world, case, files, base, rng2, False, (lambda n: 0.003))
+    H.evals += 1
+    if rs2.error is not None:
+        H.viol("C27.resume-raises", f"{site}|{rs2.error_site}", f"after an injected {what} killed the run, resume raised {rs2.error!r}")
+    else:
+        d = C.compare_resumed(case, ref, rs2, rng2)
+        if d:
+            H.viol("C27.resume-differs", site, f"after an injected {what} killed the run, the resumed results differ: {d[:3]}")
 
 
 def _dclass(d: list[str]) -> str:
